@@ -84,6 +84,16 @@ theorem wse_taylor (ss : List (Sched K m nv)) (Ws : Option (List (Mat K m m))) (
 
 end wseThms
 
+/-- C12 (`SimpleQuadraticLossFunction`): exact Taylor identity `value(x+h) = value(x) + ⟨gradient(x), h⟩ + ½⟨h, (2I)h⟩` for all `x`, `h`. -/
+theorem simple_taylor {K : Type} [Field K] [CharZero K] {n : Nat} (ref x h : Vec K n) :
+    simpleValue ref (x.add h) = simpleValue ref x + ∑ i, (simpleGrad ref x).get i * h.get i
+      + (1 / 2) * ∑ i, ∑ j, h.get i * simpleHess i j * h.get j := by
+  simp only [simpleValue, Vec.dot_eq, dotProduct, Vec.toV, simpleGrad, simpleHess, Vec.get_ofFn, Vec.add, Vec.sub]
+  simp only [mul_ite, ite_mul, mul_zero, zero_mul, Finset.sum_ite_eq, Finset.mem_univ, if_true]
+  rw [Finset.mul_sum, ← Finset.sum_add_distrib, ← Finset.sum_add_distrib]
+  refine Finset.sum_congr rfl fun i _ => ?_
+  ring
+
 /-! ## fast path = generic path for equal weights -/
 section fastThms
 variable {K : Type} [Field K] {m nv : Nat}
